@@ -882,3 +882,5 @@ def check(run, prog):
     rule_pipeline(run, prog)
     from .c08 import rule_prints
     rule_prints(run, prog)        # R-16.6 = R-8.6
+    from .c05_file_read import rule_lossless_read
+    rule_lossless_read(run, prog, "R-16.7")
